@@ -837,7 +837,7 @@ def run(ctx):
 
     # ---- leg B: bigger seeded cases, recorded and judged by TLC -----------------------------------
     seen = {}            # trace digest -> (trace, case)
-    ncases = ctx.pick(1500, 12000)
+    ncases = ctx.pick(1000, 12000)
     per = ctx.pick(6, 8)
     runs = 0
     for i in range(ncases):
